@@ -99,7 +99,7 @@ CLAIMED["C19"] = dict(
    design="7/C19")
 CLAIMED["C02"] = dict(
    technique="exhaustive enumeration of tail-context compositions x loop shapes, with a per-iteration state invariant (machine stack depth and live heap sampled by a native probe at every iteration)",
-   text="Every composition of the 24 tail contexts of length 1-2 (thorough 3) x 7 loop shapes (self, 2- and 3-way mutual, procedure parameter, variadic, closure-returned, closure with captured state that differs per round) is run for N = 64 and N = 20000 / 3000 iterations on the real interpreter; a native procedure called in every iteration samples the address of a local (real stack depth) and the evaluating thread's live heap. Neither may be larger in the second half of the iterations than in the first (stack byte-exact, heap within 256 B), and the result must be the closed form.",
+   text="Every composition of the 28 tail contexts (incl. user-defined macros and a parallel let exchanging the loop variables) of length 1-2 (thorough 3) x 7 loop shapes (self, 2- and 3-way mutual, procedure parameter, variadic, closure-returned, closure with captured state that differs per round) is run for N = 64 and N = 20000 / 3000 iterations on the real interpreter; a native procedure called in every iteration samples the address of a local (real stack depth) and the evaluating thread's live heap. Neither may be larger in the second half of the iterations than in the first (stack byte-exact, heap within 256 B), and the result must be the closed form.",
    note="the no-growth invariant observed at every iteration is what carries the claim beyond the executed N; tail calls through apply are a recorded known finding",
    design="7/C02")
 NOT_YET = "check not built yet (build in progress, see DESIGN.md section 12)"
@@ -159,7 +159,7 @@ def main():
                    "kind_free_text":"Rust binary linking the real ruschm crate: bounded-exhaustive input sweeps (E-sweep) and explicit-state BFS over operation histories replayed on fresh interpreters (E-hist), judged by independent reference models"}],
        "checks":checks,
        "not_applicable":[{"property_id":p["id"],"reason":NA.get(p["id"],NOT_YET)} for p in props if p["id"] not in CLAIMED],
-       "notes":"All checks: exit 0 = held on everything explored (KNOWN-FINDING lines for entries of /verif/known_findings.json), exit 1 = VIOLATION lines, exit 2 = machinery failure. See DESIGN.md."}
+       "notes":"The thorough tier of every check has two passes: first the quick space with harness, interpreter and (C14, C17, C18) the ruschm binary built without debug assertions and overflow checks (evidence/<ID>.release.json), then the thorough space under the profile of the repository's own test suite; a violation in either pass is exit 1. All checks: exit 0 = held on everything explored (KNOWN-FINDING lines for entries of /verif/known_findings.json), exit 1 = VIOLATION lines, exit 2 = machinery failure. See DESIGN.md."}
     json.dump(m,open('/verif/MANIFEST.json','w'),indent=1)
     print("claimed:",sorted(CLAIMED))
 main()
